@@ -792,7 +792,7 @@ theorem removedIds_deleteDeliveries (db : Db) (victims : List Id) (i : Id) (hi :
     (`ON DELETE SET NULL`), nothing else changes -/
 theorem shrinkOk_deleteDeliveries (db : Db) (now : Time) (victims : List Id)
     (hex : ∀ v ∈ victims, v ∈ db.dels.map (·.id))
-    (hdone : ∀ d ∈ db.dels, victims.contains d.id = true → d.isOpen now = false) :
+    (hdone : ∀ d ∈ db.dels, victims.contains d.id = true → d.isOpen now = false ∨ liveOrd db d.subId = false) :
     shrinkOk db now (deleteDeliveries db victims) = true := by
   have hR : ∀ i ∈ db.dels.map (·.id), (removedIds db.dels (deleteDeliveries db victims).dels).contains i = victims.contains i :=
     fun i hi => removedIds_deleteDeliveries db victims i hi
@@ -839,7 +839,8 @@ theorem shrinkOk_deleteDeliveries (db : Db) (now : Time) (victims : List Id)
     rw [this]
     cases hv : victims.contains d.id with
     | false => simp
-    | true => simp [hdone d hd hv]
+    | true =>
+      rcases hdone d hd hv with h1 | h1 <;> simp [h1]
   · apply List.all_eq_true.mpr
     intro d _
     simp only [Bool.or_eq_true, beq_iff_eq]
@@ -889,7 +890,7 @@ theorem C05_refines_pruneCompletedDeliveries (st : St) (a : Int) (mx : Nat) (v :
       obtain ⟨hm, hid⟩ := delById_mem hr
       have : r = d := Ord.eq_of_nodup_ids huniq hm hd hid
       subst this
-      refine (Ord.isOpen_false_iff st.now r).mpr (Or.inl ?_)
+      refine Or.inl ((Ord.isOpen_false_iff st.now r).mpr (Or.inl ?_))
       cases hcc : r.completedAt with
       | none => rw [hcc] at hp; cases hp
       | some c => rfl
@@ -918,7 +919,7 @@ theorem C05_refines_pruneExpiredDeliveries (st : St) (mx : Nat) (v : List Id)
       obtain ⟨hm, hid⟩ := delById_mem hr
       have : r = d := Ord.eq_of_nodup_ids huniq hm hd hid
       subst this
-      refine (Ord.isOpen_false_iff st.now r).mpr (Or.inr ?_)
+      refine Or.inl ((Ord.isOpen_false_iff st.now r).mpr (Or.inr ?_))
       have : r.expiresAt < st.now := by simpa using hp
       exact Int.le_of_lt this
 
@@ -1234,10 +1235,14 @@ structure WF (st : St) : Prop where
   inv  : Ord.Inv st.db st.now
   fkM  : ∀ d ∈ st.db.dels, (st.db.msgById d.msgId).isSome = true
   fkS  : ∀ d ∈ st.db.dels, ∃ s ∈ st.db.subs, s.id = d.subId
-  uqS  : ∀ a ∈ st.db.subs, ∀ b ∈ st.db.subs, a.live = true → b.live = true → a.id = b.id → a = b
+  uqA  : ∀ a ∈ st.db.subs, ∀ b ∈ st.db.subs, a.id = b.id → a = b
   idsS : ∀ s ∈ st.db.subs, st.db.allIds.contains s.id = true
   clk  : ∀ d ∈ st.db.dels, d.publishedAt < st.now
   noDL : ∀ s ∈ st.db.subs, ∀ d, s.dlTarget d = none
+
+theorem WF.uqS {st : St} (h : WF st) :
+    ∀ a ∈ st.db.subs, ∀ b ∈ st.db.subs, a.live = true → b.live = true → a.id = b.id → a = b :=
+  fun a ha b hb _ _ hid => h.uqA a ha b hb hid
 
 theorem WF.init : WF {} := by
   refine ⟨Ord.Inv.init 0, ?_, ?_, ?_, ?_, ?_, ?_⟩ <;> intro x hx <;> cases hx
@@ -1249,7 +1254,7 @@ theorem WF.of_same {st st' : St} (h : WF st) (hdb : st'.db = st.db) (hnow : st.n
   refine ⟨h.inv.step hok, ?_, ?_, ?_, ?_, ?_, ?_⟩
   · rw [hdb]; exact h.fkM
   · rw [hdb]; exact h.fkS
-  · rw [hdb]; exact h.uqS
+  · rw [hdb]; exact h.uqA
   · rw [hdb]; exact h.idsS
   · rw [hdb]; intro d hd; have := h.clk d hd; unfold Time at *; omega
   · rw [hdb]; exact h.noDL
@@ -1270,7 +1275,7 @@ theorem WF.of_tables {st st' : St} (h : WF st) (hd : st'.db.dels = st.db.dels) (
     have := h.fkM d hdm
     unfold Db.msgById at *; rw [hm]; exact this
   · rw [hd, hs]; exact h.fkS
-  · rw [hs]; exact h.uqS
+  · rw [hs]; exact h.uqA
   · rw [hs]; intro s hsm; exact hids _ (h.idsS s hsm)
   · rw [hd, hnow]; exact h.clk
   · rw [hs]; exact h.noDL
@@ -1320,11 +1325,10 @@ theorem WF.of_dels_map {st st' : St} (h : WF st) (g : Delivery → Delivery) (gs
     obtain ⟨d0, hd0, rfl⟩ := List.mem_map.mp hdm
     obtain ⟨s0, hs0, hid⟩ := h.fkS d0 hd0
     exact ⟨gs s0, List.mem_map.mpr ⟨s0, hs0, rfl⟩, by rw [(hgs s0).1, (hg d0).2.2.1]; exact hid⟩
-  · rw [hs]; intro a ha b hb hla hlb hid
+  · rw [hs]; intro a ha b hb hid
     obtain ⟨a0, ha0, rfl⟩ := List.mem_map.mp ha
     obtain ⟨b0, hb0, rfl⟩ := List.mem_map.mp hb
-    have := h.uqS a0 ha0 b0 hb0 (by rw [← (hgs a0).2.1]; exact hla) (by rw [← (hgs b0).2.1]; exact hlb)
-      (by rw [← (hgs a0).1, ← (hgs b0).1]; exact hid)
+    have := h.uqA a0 ha0 b0 hb0 (by rw [← (hgs a0).1, ← (hgs b0).1]; exact hid)
     rw [this]
   · rw [hs]; intro s hsm
     obtain ⟨s0, hs0, rfl⟩ := List.mem_map.mp hsm
@@ -1448,10 +1452,10 @@ theorem WF.step_createSub {st : St} (h : WF st) (p : CreateSubParams) (i : Id) (
     · rw [hdb]; intro d hd
       obtain ⟨s0, hs0, hid⟩ := h.fkS d hd
       exact ⟨s0, List.mem_append_left _ hs0, hid⟩
-    · rw [hdb]; intro a ha b hb hla hlb hid
+    · rw [hdb]; intro a ha b hb hid
       simp only [List.mem_append, List.mem_singleton] at ha hb
       rcases ha with ha | ha <;> rcases hb with hb | hb
-      · exact h.uqS a ha b hb hla hlb hid
+      · exact h.uqA a ha b hb hid
       · subst hb; exact absurd hid (by simpa [mkSub] using hold a ha)
       · subst ha; exact absurd hid.symm (by simpa [mkSub] using hold b hb)
       · rw [ha, hb]
@@ -1604,7 +1608,7 @@ theorem WF.step_publish {st : St} (h : WF st) (tn : String) (tick : Int) (pm : P
           have := (liveSubsOf_mem hs0).1
           rw [hdb1] at this; exact this
         exact ⟨s0, this, rfl⟩
-    · rw [hsubs]; exact h.uqS
+    · rw [hsubs]; exact h.uqA
     · rw [hsubs]; intro s hs
       have := h.idsS s hs
       rw [List.contains_iff_mem] at this ⊢
@@ -1639,7 +1643,7 @@ theorem WF.of_deleteDeliveries {st : St} (h : WF st) (victims : List Id)
   have hfields : ∀ d0, (clrV victims d0).msgId = d0.msgId ∧ (clrV victims d0).subId = d0.subId ∧
       (clrV victims d0).publishedAt = d0.publishedAt := by
     intro d0; unfold clrV; split <;> (try split) <;> exact ⟨rfl, rfl, rfl⟩
-  refine ⟨h.inv.step hok, ?_, ?_, h.uqS, ?_, ?_, h.noDL⟩
+  refine ⟨h.inv.step hok, ?_, ?_, h.uqA, ?_, ?_, h.noDL⟩
   · intro d hd
     obtain ⟨d0, hd0, rfl⟩ := hmem d hd
     rw [(hfields d0).1]; exact h.fkM d0 hd0
@@ -1875,7 +1879,7 @@ theorem WF.finish_same {α} {st : St} (h : WF st) (r : Except Err (TxOut α)) (r
       have := h.fkM d hd
       unfold Db.msgById at *; rw [h3]; exact this
     · rw [h1, h2]; exact h.fkS
-    · rw [h2]; exact h.uqS
+    · rw [h2]; exact h.uqA
     · intro s hs; exact allIds_of_sub o.db s hs
     · rw [h1]; exact h.clk
     · rw [h2]; exact h.noDL
@@ -1939,7 +1943,7 @@ theorem subsOk_of_kill (db db' : Db) (gs : Sub → Sub) (hs : db'.subs = db.subs
 theorem WF.of_subs_kill {st st' : St} (h : WF st) (gs : Sub → Sub)
     (hd : st'.db.dels = st.db.dels) (hs : st'.db.subs = st.db.subs.map gs) (hm : st'.db.msgs = st.db.msgs)
     (hnow : st'.now = st.now)
-    (hgs : ∀ s, (gs s).id = s.id ∧ (∀ d, (gs s).dlTarget d = s.dlTarget d) ∧
+    (hgs : ∀ s, (gs s).id = s.id ∧ (∀ d, s.dlTarget d = none → (gs s).dlTarget d = none) ∧
       ((gs s).live = true → s.live = true ∧ (gs s).ordered = s.ordered ∧ (gs s).messageTtl = s.messageTtl)) :
     WF st' := by
   have hok : Ord.stepOk true st.db st.now st'.db st'.now = true := by
@@ -1957,30 +1961,29 @@ theorem WF.of_subs_kill {st st' : St} (h : WF st) (gs : Sub → Sub)
   · rw [hd, hs]; intro d hdm
     obtain ⟨s0, hs0, hid⟩ := h.fkS d hdm
     exact ⟨gs s0, List.mem_map.mpr ⟨s0, hs0, rfl⟩, by rw [(hgs s0).1]; exact hid⟩
-  · rw [hs]; intro a ha b hb hla hlb hid
+  · rw [hs]; intro a ha b hb hid
     obtain ⟨a0, ha0, rfl⟩ := List.mem_map.mp ha
     obtain ⟨b0, hb0, rfl⟩ := List.mem_map.mp hb
-    have := h.uqS a0 ha0 b0 hb0 ((hgs a0).2.2 hla).1 ((hgs b0).2.2 hlb).1
-      (by rw [← (hgs a0).1, ← (hgs b0).1]; exact hid)
+    have := h.uqA a0 ha0 b0 hb0 (by rw [← (hgs a0).1, ← (hgs b0).1]; exact hid)
     rw [this]
   · intro s hsm; exact allIds_of_sub st'.db s hsm
   · rw [hd, hnow]; exact h.clk
   · rw [hs]; intro s hsm d
     obtain ⟨s0, hs0, rfl⟩ := List.mem_map.mp hsm
-    rw [(hgs s0).2.1 d]; exact h.noDL s0 hs0 d
+    exact (hgs s0).2.1 d (h.noDL s0 hs0 d)
 
 theorem kill_fields (p : Sub → Bool) (now : Time) (s : Sub) :
     (if p s = true then { s with deletedAt := some now } else s).id = s.id ∧
-    (∀ d, (if p s = true then { s with deletedAt := some now } else s).dlTarget d = s.dlTarget d) ∧
+    (∀ d, s.dlTarget d = none → (if p s = true then { s with deletedAt := some now } else s).dlTarget d = none) ∧
     ((if p s = true then { s with deletedAt := some now } else s).live = true →
       s.live = true ∧ (if p s = true then { s with deletedAt := some now } else s).ordered = s.ordered ∧
       (if p s = true then { s with deletedAt := some now } else s).messageTtl = s.messageTtl) := by
   by_cases hp : p s = true
   · rw [if_pos hp]
-    refine ⟨rfl, fun _ => rfl, ?_⟩
+    refine ⟨rfl, fun _ h => h, ?_⟩
     intro hl; simp [Sub.live] at hl
   · rw [if_neg hp]
-    exact ⟨rfl, fun _ => rfl, fun hl => ⟨hl, rfl, rfl⟩⟩
+    exact ⟨rfl, fun _ h => h, fun hl => ⟨hl, rfl, rfl⟩⟩
 
 theorem WF.step_deleteSub {st : St} (h : WF st) (n : String) : WF (Mmmbbb.step st (.deleteSub n)).1 := by
   simp only [Mmmbbb.step]
@@ -2010,6 +2013,269 @@ theorem WF.step_expireSubs {st : St} (h : WF st) (mx : Nat) (v : List Id) : WF (
       exact h.of_subs_kill (fun s => if (v.contains s.id) = true then { s with deletedAt := some st.now } else s)
         rfl rfl rfl rfl (fun s => kill_fields (fun s => v.contains s.id) st.now s)
 
+/-! #### the rest of the store's operations: the delay injector, the four remaining prune jobs and
+    the dead-letter sweep (which finds nothing to do where no subscription has a dead-letter policy) -/
+
+theorem WF.step_setDelay {st : St} (h : WF st) (n : String) (dl : Int) : WF (Mmmbbb.step st (.setDelay n dl)).1 := by
+  simp only [Mmmbbb.step]
+  cases hc : setDelay st.db n dl with
+  | error e => simp only [finish]; exact h
+  | ok o =>
+    simp only [finish]
+    unfold setDelay at hc
+    simp only at hc
+    split at hc
+    · cases hc
+    · injection hc with hc; subst hc
+      refine h.of_subs_kill (fun s => if (s.name == n && s.live) = true then { s with deliveryDelay := dl } else s)
+        rfl rfl rfl rfl (fun s => ?_)
+      by_cases hp : (s.name == n && s.live) = true
+      · rw [if_pos hp]; exact ⟨rfl, fun _ h => h, fun hl => ⟨hl, rfl, rfl⟩⟩
+      · rw [if_neg hp]; exact ⟨rfl, fun _ h => h, fun hl => ⟨hl, rfl, rfl⟩⟩
+
+theorem subById_mem {db : Db} {i : Id} {s : Sub} (h : db.subById i = some s) : s ∈ db.subs ∧ s.id = i := by
+  unfold Db.subById at h
+  exact ⟨List.mem_of_find?_eq_some h, by simpa using List.find?_some h⟩
+
+theorem msgById_mem {db : Db} {i : Id} {m : Msg} (h : db.msgById i = some m) : m ∈ db.msgs ∧ m.id = i := by
+  unfold Db.msgById at h
+  exact ⟨List.mem_of_find?_eq_some h, by simpa using List.find?_some h⟩
+
+/-- **the job that removes the deliveries of deleted subscriptions refines the shrinking step**: the
+    rows it removes may be outstanding, but they belong to no live subscription -/
+theorem C05_refines_pruneDeletedSubDeliveries (st : St) (a : Int) (mx : Nat) (v : List Id)
+    (huniq : (st.db.dels.map (·.id)).Nodup)
+    (huqA : ∀ a ∈ st.db.subs, ∀ b ∈ st.db.subs, a.id = b.id → a = b) :
+    Ord.stepOk true st.db st.now (Mmmbbb.step st (.pruneDeletedSubDeliveries a mx v)).1.db
+      (Mmmbbb.step st (.pruneDeletedSubDeliveries a mx v)).1.now = true := by
+  simp only [Mmmbbb.step]
+  unfold pruneDeletedSubDeliveries
+  simp only
+  split
+  · simp only [finish]
+    exact Ord.stepOk_of_same st.db st.now _ st.now (Int.le_refl _) rfl rfl rfl
+  · rename_i hlim
+    simp only [finish]
+    have hlim' := by simpa using hlim
+    have hv := limitOk_victims hlim'
+    refine stepOk_of_shrink st.db st.now _ rfl (shrinkOk_deleteDeliveries st.db st.now v ?_ ?_)
+    · intro x hx
+      obtain ⟨r, hr, _⟩ := hv x hx
+      obtain ⟨hm, hid⟩ := delById_mem hr
+      exact List.mem_map.mpr ⟨r, hm, hid⟩
+    · intro d hd hc
+      obtain ⟨r, hr, hp⟩ := hv d.id (List.contains_iff_mem.mp hc)
+      obtain ⟨hm, hid⟩ := delById_mem hr
+      have : r = d := Ord.eq_of_nodup_ids huniq hm hd hid
+      subst this
+      right
+      cases hlo : liveOrd st.db r.subId with
+      | false => rfl
+      | true =>
+        exfalso
+        unfold liveOrd at hlo
+        obtain ⟨s, hs, hs2⟩ := List.any_eq_true.mp hlo
+        simp only [Bool.and_eq_true, beq_iff_eq] at hs2
+        cases hsb : st.db.subById r.subId with
+        | none => rw [hsb] at hp; simp at hp
+        | some s0 =>
+          obtain ⟨hs0, hid0⟩ := subById_mem hsb
+          have : s0 = s := huqA s0 hs0 s hs (by rw [hid0, hs2.1.1])
+          subst this
+          have hl : s0.deletedAt = none := by
+            have := hs2.1.2
+            unfold Sub.live at this
+            cases hda : s0.deletedAt with
+            | none => rfl
+            | some _ => rw [hda] at this; cases this
+          rw [hsb] at hp
+          simp [hl] at hp
+
+theorem WF.step_pruneDeletedSubDeliveries {st : St} (h : WF st) (a : Int) (mx : Nat) (v : List Id) :
+    WF (Mmmbbb.step st (.pruneDeletedSubDeliveries a mx v)).1 := by
+  have hok := C05_refines_pruneDeletedSubDeliveries st a mx v h.inv.uniq h.uqA
+  revert hok
+  simp only [Mmmbbb.step]
+  unfold pruneDeletedSubDeliveries
+  simp only
+  split
+  · intro _; simp only [finish]; exact h
+  · intro hok; simp only [finish] at hok ⊢; exact h.of_deleteDeliveries v hok
+
+theorem find?_filter_keep {α} (l : List α) (keep : α → Bool) (q : α → Bool)
+    (h : ∀ m ∈ l, q m = true → keep m = true) : (l.filter keep).find? q = l.find? q := by
+  induction l with
+  | nil => rfl
+  | cons m r ih =>
+    have ih' := ih (fun x hx => h x (List.mem_cons_of_mem _ hx))
+    cases hk : keep m with
+    | true =>
+      rw [List.filter_cons_of_pos hk, List.find?_cons, List.find?_cons, ih']
+    | false =>
+      have hq : q m = false := by
+        cases hq : q m with
+        | false => rfl
+        | true => have := h m (List.mem_cons_self ..) hq; rw [hk] at this; cases this
+      rw [List.filter_cons_of_neg (by simp [hk]), List.find?_cons, hq, ih']
+
+/-- removing messages no delivery refers to keeps the fragment's invariants -/
+theorem WF.of_msgs_filter {st : St} (h : WF st) (keep : Msg → Bool)
+    (hkeep : ∀ d ∈ st.db.dels, ∀ m ∈ st.db.msgs, m.id = d.msgId → keep m = true) :
+    WF { st with db := { st.db with msgs := st.db.msgs.filter keep } } := by
+  have hmsg : ∀ d ∈ st.db.dels,
+      ({ st.db with msgs := st.db.msgs.filter keep } : Db).msgById d.msgId = st.db.msgById d.msgId := by
+    intro d hd
+    unfold Db.msgById
+    exact find?_filter_keep st.db.msgs keep _ (fun m hm hq => hkeep d hd m hm (by simpa using hq))
+  have hk : ∀ d ∈ st.db.dels, keyOf ({ st.db with msgs := st.db.msgs.filter keep } : Db) d = keyOf st.db d := by
+    intro d hd
+    unfold keyOf
+    rw [hmsg d hd]
+  have hok : Ord.stepOk true st.db st.now ({ st.db with msgs := st.db.msgs.filter keep } : Db) st.now = true :=
+    Ord.stepOk_of_append true st.db st.now _ st.now [] (Int.le_refl _) (List.append_nil _).symm rfl hk rfl
+  refine ⟨h.inv.step hok, ?_, h.fkS, h.uqA, ?_, h.clk, h.noDL⟩
+  · intro d hd
+    rw [hmsg d hd]; exact h.fkM d hd
+  · intro s hs; exact allIds_of_sub _ s hs
+
+theorem WF.step_pruneCompletedMessages {st : St} (h : WF st) (a : Int) (mx : Nat) (v : List Id) :
+    WF (Mmmbbb.step st (.pruneCompletedMessages a mx v)).1 := by
+  simp only [Mmmbbb.step]
+  unfold pruneCompletedMessages
+  simp only
+  split
+  · simp only [finish]; exact h
+  · rename_i hlim
+    simp only [finish]
+    have hlim' := by simpa using hlim
+    have hv := limitOk_victims hlim'
+    apply h.of_msgs_filter
+    intro d hd m _ hid
+    cases hc : v.contains m.id with
+    | false => rfl
+    | true =>
+      exfalso
+      obtain ⟨r, hr, hp⟩ := hv m.id (List.contains_iff_mem.mp hc)
+      obtain ⟨_, hrid⟩ := msgById_mem hr
+      simp only [Bool.and_eq_true, Bool.not_eq_true', decide_eq_true_eq] at hp
+      have := hp.2
+      rw [List.any_eq_false] at this
+      exact this d hd (by simp [hrid, hid])
+
+/-- removing subscriptions no delivery refers to keeps the fragment's invariants -/
+theorem WF.of_subs_filter {st : St} (h : WF st) (keep : Sub → Bool)
+    (hkeep : ∀ d ∈ st.db.dels, ∀ s ∈ st.db.subs, s.id = d.subId → keep s = true) :
+    WF { st with db := { st.db with subs := st.db.subs.filter keep } } := by
+  have hok : Ord.stepOk true st.db st.now ({ st.db with subs := st.db.subs.filter keep } : Db) st.now = true := by
+    unfold Ord.stepOk
+    simp only [Bool.and_eq_true, decide_eq_true_eq, Bool.or_eq_true]
+    refine ⟨⟨Int.le_refl _, ?_⟩, Or.inl ?_⟩
+    · unfold Ord.subsOk
+      apply List.all_eq_true.mpr
+      intro s' hs'
+      have hs0 : s' ∈ st.db.subs := (List.mem_filter.mp hs').1
+      cases hl : s'.live with
+      | false => simp
+      | true =>
+        simp only [Bool.not_true, Bool.false_or, Bool.or_eq_true, List.any_eq_true, Bool.and_eq_true, beq_iff_eq]
+        left
+        exact ⟨s', hs0, ⟨⟨⟨hl, rfl⟩, rfl⟩, rfl⟩⟩
+    · unfold Ord.growOk
+      simp only [List.take_length, List.drop_length, Bool.and_eq_true]
+      exact ⟨Ord.rowsUpdOk_refl st.db st.now ({ st.db with subs := st.db.subs.filter keep } : Db) rfl st.db.dels, rfl⟩
+  refine ⟨h.inv.step hok, h.fkM, ?_, ?_, ?_, h.clk, ?_⟩
+  · intro d hd
+    obtain ⟨s0, hs0, hid⟩ := h.fkS d hd
+    exact ⟨s0, List.mem_filter.mpr ⟨hs0, hkeep d hd s0 hs0 hid⟩, hid⟩
+  · intro a ha b hb hid
+    exact h.uqA a (List.mem_filter.mp ha).1 b (List.mem_filter.mp hb).1 hid
+  · intro s hs; exact allIds_of_sub _ s hs
+  · intro s hs d; exact h.noDL s (List.mem_filter.mp hs).1 d
+
+theorem WF.step_pruneDeletedSubs {st : St} (h : WF st) (a : Int) (mx : Nat) (v : List Id) :
+    WF (Mmmbbb.step st (.pruneDeletedSubs a mx v)).1 := by
+  simp only [Mmmbbb.step]
+  unfold pruneDeletedSubs
+  simp only
+  split
+  · simp only [finish]; exact h
+  · rename_i hlim
+    simp only [finish]
+    have hlim' := by simpa using hlim
+    have hv := limitOk_victims hlim'
+    apply h.of_subs_filter
+    intro d hd s _ hid
+    cases hc : v.contains s.id with
+    | false => rfl
+    | true =>
+      exfalso
+      obtain ⟨r, hr, hp⟩ := hv s.id (List.contains_iff_mem.mp hc)
+      obtain ⟨_, hrid⟩ := subById_mem hr
+      simp only [Bool.and_eq_true, Bool.not_eq_true'] at hp
+      have := hp.2
+      rw [List.any_eq_false] at this
+      exact this d hd (by simp [hrid, hid])
+
+theorem WF.step_pruneDeletedTopics {st : St} (h : WF st) (a : Int) (mx : Nat) (v : List Id) :
+    WF (Mmmbbb.step st (.pruneDeletedTopics a mx v)).1 := by
+  simp only [Mmmbbb.step]
+  unfold pruneDeletedTopics
+  simp only
+  split
+  · simp only [finish]; exact h
+  · split
+    · simp only [finish]; exact h
+    · simp only [finish]
+      refine h.of_subs_kill (fun s => match s.dlTopicId with
+          | some d => if v.contains d = true then { s with dlTopicId := none } else s
+          | none => s) rfl rfl rfl rfl (fun s => ?_)
+      split
+      · rename_i t hdl
+        by_cases hc : v.contains t = true
+        · rw [if_pos hc]
+          refine ⟨rfl, fun d _ => ?_, fun hl => ⟨hl, rfl, rfl⟩⟩
+          unfold Sub.dlTarget
+          split <;> simp_all
+        · rw [if_neg hc]; exact ⟨rfl, fun _ h => h, fun hl => ⟨hl, rfl, rfl⟩⟩
+      · exact ⟨rfl, fun _ h => h, fun hl => ⟨hl, rfl, rfl⟩⟩
+
+/-- where no subscription has a dead-letter policy the dead-letter sweep has no candidates -/
+theorem WF.step_dlSweep {st : St} (h : WF st) (mx : Nat) (v : List Id) (fw : List (Id × List Fwd)) :
+    WF (Mmmbbb.step st (.dlSweep mx v fw)).1 := by
+  simp only [Mmmbbb.step]
+  apply h.finish_same
+  intro o ho
+  unfold dlSweep at ho
+  split at ho
+  · cases ho
+  · rename_i hlim
+    have hlim' := by simpa using hlim
+    have hv := limitOk_victims hlim'
+    have hnil : v = [] := by
+      cases v with
+      | nil => rfl
+      | cons x r =>
+        exfalso
+        obtain ⟨d, hd, hp⟩ := hv x (List.mem_cons_self ..)
+        unfold sweepCand at hp
+        simp only [Bool.and_eq_true] at hp
+        cases hsb : st.db.subById d.subId with
+        | none => rw [hsb] at hp; simp at hp
+        | some s =>
+          obtain ⟨hs, _⟩ := subById_mem hsb
+          have hno := h.noDL s hs d
+          rw [hsb] at hp
+          unfold Sub.dlTarget at hno
+          revert hno
+          have hp2 := hp.2
+          simp only [Bool.and_eq_true] at hp2
+          revert hp2
+          cases s.maxAttempts <;> cases s.dlTopicId <;> simp
+    subst hnil
+    simp only [lookupAll, sweepLoop] at ho
+    injection ho with ho; subst ho
+    exact ⟨rfl, rfl, rfl⟩
+
 def fragRun : St → List Op → Prop
   | _, [] => True
   | st, op :: r => fragOk st op ∧ fragRun (step st op).1 r
@@ -2031,6 +2297,12 @@ theorem WF.step {st : St} (h : WF st) (op : Op) (hf : fragOk st op) : WF (Mmmbbb
   | nack ids ds fw => exact h.step_nack ids ds fw
   | pruneCompletedDeliveries a mx v => exact h.step_pruneCompletedDeliveries a mx v
   | pruneExpiredDeliveries mx v => exact h.step_pruneExpiredDeliveries mx v
+  | setDelay n d => exact h.step_setDelay n d
+  | dlSweep mx v fw => exact h.step_dlSweep mx v fw
+  | pruneCompletedMessages a mx v => exact h.step_pruneCompletedMessages a mx v
+  | pruneDeletedSubDeliveries a mx v => exact h.step_pruneDeletedSubDeliveries a mx v
+  | pruneDeletedSubs a mx v => exact h.step_pruneDeletedSubs a mx v
+  | pruneDeletedTopics a mx v => exact h.step_pruneDeletedTopics a mx v
   | _ => exact absurd hf (by simp [fragOk])
 
 theorem WF.run : ∀ (ops : List Op) (st : St), WF st → fragRun st ops → WF (Mmmbbb.run st ops)
@@ -2039,13 +2311,14 @@ theorem WF.run : ∀ (ops : List Op) (st : St), WF st → fragRun st ops → WF 
     rw [run_cons]
     exact WF.run r _ (h.step op hf.1) hf.2
 
-/-- **C05 on the fragment, outright**: for *every* history of clock advances, topic creations and
-    deletions, subscription creations (without dead-letter policy), deletions and expiries, snapshot
-    creations and deletions, publishes (single and batched) with an advancing clock,
-    pulls, deadline changes, nacks, acknowledgements of handed-out
-    deliveries and runs of the jobs that delete acknowledged or expired deliveries — any number of
-    subscriptions, keys, un-keyed messages in between, pulls of any size, acks in any order, lease
-    and retention expiry, pruning of completed predecessors —
+/-- **C05 on the fragment, outright**: for *every* history that contains no Seek and creates no
+    subscription with a dead-letter policy — clock advances, topic creations and deletions,
+    subscription creations, deletions and expiries, snapshot creations and deletions, publishes
+    (single and batched) with an advancing clock, pulls, deadline changes, nacks, acknowledgements of
+    handed-out deliveries, the delay injector, the dead-letter sweep and all six prune jobs; any
+    number of subscriptions, keys, un-keyed messages in between, pulls of any size, acks in any order,
+    lease and retention expiry, pruning of completed predecessors, of deleted subscriptions and of
+    their deliveries —
     in the state it reaches no keyed delivery of an ordered subscription is eligible while an
     earlier-published delivery of the same key is outstanding.  No hypothesis is evaluated on the
     run: the refinement obligation of every step is a theorem (`C05_refines_*`), and the side
